@@ -679,6 +679,10 @@ def main(tier, replay=None):
     tr_stats = translate_stage.translator_obligation_stats(run)
     if tr_stats["status"] != "ok":
         run.notes.append("translator obligation (stats): " + json.dumps(translate_stage.replay_fields_stats(tr_stats))[:600])
+    # ... and Cavity._track_beam (both beam types) against Beam/MomCavity.v (Gen/DiagGenEquiv.v, part "cavity")
+    tr_diag = translate_stage.translator_obligation_diag(run, parts=("cavity",))
+    if tr_diag["status"] != "ok":
+        run.notes.append("translator obligation (cavity): " + json.dumps(translate_stage.replay_fields_diag(tr_diag))[:600])
     if not proof_ok:
         run.notes.append(run.proof_problem)
     ok_aux, log = common.coq_build("theories/Beam/MomCavityCorr.vo")
@@ -743,6 +747,8 @@ def main(tier, replay=None):
     elif cfail:
         run.violation({"kind": "cavity_model", "broken": "Beam/MomCavity.v (model of Cavity._track_beam) disagrees with the implementation",
                        "case": meta[cfail[0]], "goal": goals[cfail[0]][0], "error": cerrs.get(cfail[0], "")[-400:]}, no_input=True)
+    elif tr_diag["status"] != "ok":
+        run.violation(translate_stage.replay_fields_diag(tr_diag), no_input=True)
     elif tr_stats["status"] != "ok":
         # the source no longer translates to the proved model and none of this run's oracles found a failing input
         run.violation(translate_stage.replay_fields_stats(tr_stats), no_input=True)
